@@ -142,6 +142,47 @@ func TestC33(t *testing.T) {
 		}
 	}()
 
+	// The real-storage family first (see real_test.go): its histories are short and cheap, and
+	// it must be reached whatever the machine load does to the gated scenarios below, which use
+	// whatever time is left. Lengths up to realMinDepth are mandatory (only the budget of the
+	// whole run cuts them); the longer ones stop when the family's share of the budget is used.
+	var realRuns []*realExplorer
+	realDepth := envInt("VERIF_K5_REAL_DEPTH", ev.Pick(r, 5, 6))
+	realStopped := false
+	if os.Getenv("VERIF_K5_NOREAL") == "" && os.Getenv("VERIF_K5_LOGS") == "" {
+		// quick: without the "exporter refuses a batch" operation (exporter errors are what the
+		// gated scenarios below explore in depth)
+		realCfgs := []realCfg{{Family: "real-storage", Deployment: "embedded", PageSize: 2, MaxWritesA: 3, MaxWritesB: 3, XFail: r.Thorough()}}
+		// The manager in its own process (`ledger worker`, what `ledger serve` expects unless it
+		// is given --worker): explored on every run (VERIF_K5_SPLIT=0 disables it). It showed a
+		// genuine defect (the worker's long-lived store kept a stale "alone in its bucket" hint and
+		// exported the neighbour's logs), repaired in /repo (known_findings.json, fixed: C33).
+		if sp := os.Getenv("VERIF_K5_SPLIT"); sp != "0" {
+			realCfgs = append(realCfgs, realCfg{Family: "real-storage", Deployment: "split", PageSize: 2, MaxWritesA: 3, MaxWritesB: 3, XFail: r.Thorough()})
+		}
+		share := r.Budget() * 3 / 10
+		famStart := time.Now()
+		for i, rc := range realCfgs {
+			base, err := buildRealBase(rc)
+			if err != nil {
+				r.EngineError("real-storage family: building the base database on pgsim: " + err.Error())
+				break
+			}
+			e := &realExplorer{r: r, cfg: rc, base: base, workers: workers, known: known,
+				deadline: famStart.Add(share * time.Duration(3+i) / time.Duration(2+len(realCfgs))), minDepth: realMinDepth,
+				outcomes: map[string]int64{}, viols: map[string]*realFound{}}
+			realRuns = append(realRuns, e)
+			e.explore(t, realDepth)
+			if e.unknownViolation() || e.abort.Load() {
+				realStopped = true
+				break
+			}
+		}
+	}
+	if os.Getenv("VERIF_K5_REAL_ONLY") != "" {
+		realStopped = true
+	}
+
 	var reports []*scenarioReport
 	frontier := make([][]task, len(scenarios))
 	for si, cfg := range scenarios {
@@ -149,7 +190,7 @@ func TestC33(t *testing.T) {
 		frontier[si] = []task{{}}
 	}
 depthMajor:
-	for level := 0; level <= maxBound; level++ {
+	for level := 0; level <= maxBound && !realStopped; level++ {
 		for si, rep := range reports {
 			e := rep.e
 			tasks := frontier[si]
@@ -294,8 +335,44 @@ depthMajor:
 	cov["scenarios_planned"] = len(scenarios)
 	cov["batched_scenarios"] = batchedScenarios
 	cov["exploration_order"] = "depth-major: every scenario at deviation level n before any scenario at level n+1"
-	cov["rule"] = "every choice sequence with <= deviation_bound_completed non-default choices, per scenario; choices = release any parked environment call with OK or (StorePipelineState, UpdatePipeline, ListLogs, Driver.Start, Driver.Accept) with an error, advance time to the next timer class, issue Start/Stop/Reset/RestartManager, append a log. In the batched scenarios Driver.Accept is one SUB-BATCH cut by the real drivers.Batcher, so the sub-batches of one page are acknowledged / failed independently. Oracles: (1) persisted last_log_id <= acked, acked = every log 1..acked acknowledged by the exporter since the last reset; (2) every page the pipeline hands over (= batch, unbatched) starts <= acked+1, has consecutive existing ids; batched: every sub-batch reaching the exporter has strictly increasing existing ids; (4) started + idle + healthy exporter => acked = number of logs"
+	cov["rule"] = "every choice sequence with <= deviation_bound_completed non-default choices, per scenario; choices = release any parked environment call with OK or (StorePipelineState, UpdatePipeline, ListLogs, Driver.Start, Driver.Accept) with an error, advance time to the next timer class, issue Start/Stop/Reset/RestartManager, append a log. In the batched scenarios Driver.Accept is one SUB-BATCH cut by the real drivers.Batcher, so the sub-batches of one page are acknowledged / failed independently. Oracles: (1) persisted last_log_id <= acked, acked = every log 1..acked acknowledged by the exporter since the last reset; (2) every page the pipeline hands over (= batch, unbatched) starts <= acked+1, has consecutive existing ids; batched: every sub-batch reaching the exporter has strictly increasing existing ids; (4) started + idle + healthy exporter => acked = number of logs. REAL-STORAGE FAMILY (real_storage_family, run first): the same real Manager / PipelineHandler / DriverFacade over replication.NewStorageAdapter on the real storage driver + system store on pgsim, no gate, no injected storage error; every history (sequence of operations, each run until the whole bubble is durably blocked) of <= history_length_completed operations over the alphabet {create the pipeline on A, let one pull/retry timer elapse, write on A, create B in A's bucket, write on B, stop, start, reset, restart the process hosting the manager (new storage driver / store factory / sql pool on the same database), thorough only: the exporter refuses its next batch}, shortest first, B created before or after the pipeline; after its last operation every history is settled (pipeline started if it is not, exporter healthy, pull timer elapsing until two consecutive pulls export nothing). Oracles on what the recording exporter of A received: (5) every log is a log of A: label A, and its payload is the transaction the write that got this log id on A committed (each transaction carries ledger#rank in its metadata), nothing written on B; (2) every batch has consecutive ids and starts <= acked+1; (1) after every operation the persisted last_log_id (read back through the real system store) <= acked, acked counted since the last ResetPipeline call; (4) once settled, acked = number of logs of A"
 	cov["sampled_extra_level"] = extra
+	var realCov []any
+	var realHistories int64
+	for _, e := range realRuns {
+		realCov = append(realCov, e.coverage(realDepth))
+		realHistories += e.executions.Load() + e.confirmRuns.Load()
+		if (e.depthCompleted < realDepth && !(e.stoppedOnV && !e.unknownViolation())) || e.abort.Load() {
+			exhaustive = false
+		}
+		for sig, fv := range e.viols {
+			if _, ok := viols[sig]; !ok {
+				viols[sig] = map[string]any{"executions": fv.count, "first_history": ropsStrings(fv.ops), "first_at_length": fv.level, "scenario": e.cfg}
+			}
+		}
+		if n := e.notReady.Load(); n > 0 {
+			r.Note(fmt.Sprintf("%s: %d batches were refused because the exporter was not ready yet although every fetch waits for the bubble to settle first (real_test.go obsStorage.OpenLedger): histories are not deterministic", e.cfg.name(), n))
+		}
+		// vacuity guards of the family: once every history of realMinDepth operations has been
+		// run, the pipeline on A must have polled while B, created after the pipeline, held a log
+		// beyond A's exported prefix (the situation in which a fetch that forgets its ledger
+		// predicate shows), and histories must have reached the quiescent verdict
+		if e.stoppedOnV {
+			// nothing to guard: the scenario ended on a (known or new) violation
+		} else if e.depthCompleted >= realMinDepth {
+			if e.execsForeignAhead.Load() == 0 || e.execsBAfterPipe.Load() == 0 {
+				r.EngineError("vacuous: " + e.cfg.name() + ": no history had the pipeline of A fetch while ledger B, created after the pipeline, held a log beyond A's exported prefix")
+			}
+			if e.quiescentRuns.Load() == 0 {
+				r.EngineError("vacuous: " + e.cfg.name() + ": no history reached the quiescent state where liveness is judged")
+			}
+		} else if !e.abort.Load() {
+			r.Note(fmt.Sprintf("%s: only the histories of length <= %d were completed within the time budget (length %d is needed for the second ledger to be created after the pipeline and to get ahead of it)", e.cfg.name(), e.depthCompleted, realMinDepth))
+		}
+	}
+	cov["real_storage_family"] = realCov
+	cov["real_storage_histories"] = realHistories
+	cov["traces_validated_against_impl"] = schedules + confirms + realHistories
 	cov["workers"] = workers
 	cov["samples"] = samples
 	cov["exhaustive"] = exhaustive
@@ -303,12 +380,12 @@ depthMajor:
 	if batchedScenarios == 0 && os.Getenv("VERIF_K5_LOGS") == "" {
 		r.EngineError("vacuous: no scenario with the batching layer in the explored stack")
 	}
-	if quiescent == 0 && len(viols) == 0 && !r.HasEngineError() {
+	if quiescent == 0 && len(viols) == 0 && !r.HasEngineError() && !realStopped {
 		r.EngineError("vacuous: no execution reached the quiescent state where liveness is judged")
 	}
 	exitCode = r.Finish(cov, []string{
-		"environment = in-memory Storage / LogFetcher / Driver fakes whose every call parks on a gate; the real Manager, PipelineHandler, DriverFacade and (batched scenarios) drivers.DriverFactoryWithBatching / drivers.Batcher / go.vallahaye.net/batcher run unmodified except that manager.go and drivers/batcher.go are compiled with sync.Mutex replaced by a FIFO channel mutex (go -overlay, regenerated from the current files on every run)",
-		"one ledger, one exporter, one pre-existing enabled pipeline. Unbatched scenarios: page size 2; quick: 3 logs + <=1 appended; thorough: 3 logs + <=2 appended and 4 logs + <=1 appended. Batched scenarios: 3 logs + <=1 appended; page size 2 with batching.maxItems=1 and no flush timer (quick and thorough); page size 3 with batching.maxItems=2 and a 150s flush interval (thorough): the last sub-batch of a page waits for the flush timer",
+		"gated scenarios: environment = in-memory Storage / LogFetcher / Driver fakes whose every call parks on a gate; the real Manager, PipelineHandler, DriverFacade and (batched scenarios) drivers.DriverFactoryWithBatching / drivers.Batcher / go.vallahaye.net/batcher run unmodified except that manager.go and drivers/batcher.go are compiled with sync.Mutex replaced by a FIFO channel mutex (go -overlay, regenerated from the current files on every run)",
+		"gated scenarios: one ledger, one exporter, one pre-existing enabled pipeline. Unbatched scenarios: page size 2; quick: 3 logs + <=1 appended; thorough: 3 logs + <=2 appended and 4 logs + <=1 appended. Batched scenarios: 3 logs + <=1 appended; page size 2 with batching.maxItems=1 and no flush timer (quick and thorough); page size 3 with batching.maxItems=2 and a 150s flush interval (thorough): the last sub-batch of a page waits for the flush timer",
 		"batched scenarios: a non-gated observer between the DriverFacade and the Batcher records the pages the pipeline hands over and what the batching layer answers; it recovers a panic of the export goroutine (in production the process would die): such an execution ends there with outcome code-under-test-panicked, reported under observations, not as a C33 violation",
 		"batched scenarios, below the batching layer: a sub-batch may follow a failed one (the Batcher cuts and sends sub-batches regardless of the fate of the previous one; the pipeline then retries the whole page), so the exporter may acknowledge logs 3..4 before 1..2 are acknowledged by the retry; this transient is allowed (at-least-once delivery, the retry re-exports the page in order), what is demanded is that the pipeline position (next page, persisted id) never passes a log the exporter has not acknowledged",
 		"batched scenarios: Stop/Reset/Restart are not issued while the live pipeline is parked in ListLogs: the queued stop would cancel the export context while the export goroutine is still pushing the logs of the page one by one into the batcher (`select { b.in <- op; <-ctx.Done() }`), a scheduling race plus a runtime coin flip per log deciding which logs of the abandoned page still reach the exporter (possibly not a prefix of the page); the pipeline is stopping and cannot move its position, these outcomes are NOT explored; the same commands are issued before the fetch and while a sub-batch is at the exporter",
@@ -319,6 +396,10 @@ depthMajor:
 		"time: driver start retry 2s (hard-coded in manager.go), batching flush interval 150s (flush-timer scenario only), pull/retry period 10000s, sync period 1000000s; 'advance time' fires the earliest pending timer class, so a sync tick is only explored when no pull/retry timer is pending",
 		"epoch rule: acknowledgements are counted since the last successful reset (UpdatePipeline clearing last_log_id, or ResetPipeline returning nil); Accept calls that reached the exporter before the reset do not count",
 		"executions cut by the horizon say nothing about liveness (counted in horizon_hit)",
+		"real-storage family: two ledgers (orders = A, payments = B) in one bucket, one exporter, one pipeline (on A) created by the history itself through Manager.CreatePipeline; page size 2, at most 3 writes per ledger, every write one transaction = one log; pull interval = push retry period = 10000s (+ the code's random jitter < period/2): 'let the timer elapse' advances virtual time by half periods until the pipeline has pulled or retried, so exactly one timer fires whatever the jitter; the manager's synchronisation period (1000000s) never elapses within a history",
+		"real-storage family: operations are atomic (an operation ends when every goroutine of the bubble is durably blocked): the interleavings INSIDE a storage call or between a write and a concurrent pull are not explored here (the gated scenarios explore the interleavings of the replication layer, over fake storage); the batching layer is not in this family's stack; Postgres is pgsim in its sequential mode (a statement that would wait for a lock is an ENGINE-ERROR, as is any error returned by a storage call or logged with a pgsim: prefix, since no fault is injected)",
+		"real-storage family: an idle pull (timer elapsing when nothing was written or created since the previous pull) is not enumerated inside a history (quick tier and thorough histories without a refused batch); the settle phase lets at least two happen at the end of every history, prefixes included. Histories in which no pipeline is created are not run on their own",
+		"real-storage family, deployment: 'embedded' = manager and API share ONE storage driver / ledger store factory (ledger serve --worker), explored on every run; 'restart' replaces that shared driver (process restart). 'split' = the manager has its own driver over the same database (ledger worker next to ledger serve, the default of ledger serve): explored on every run as well (VERIF_K5_SPLIT=0 disables it); its violation classes carry the suffix @split",
 		"explored: all choice sequences with at most deviation_bound_completed non-default choices (default = release the oldest parked call with OK, else advance time); not a proof for longer deviation sequences, several pipelines/exporters, or the DeletePipeline/UpdateExporter/CreatePipeline paths",
 	})
 }
@@ -360,11 +441,17 @@ func replayFile(t *testing.T, path string) int {
 		Replay    struct {
 			Config  config `json:"config"`
 			Choices []int  `json:"choices"`
+			// real-storage family (real_test.go)
+			RealConfig *realCfg `json:"real_config"`
+			History    []string `json:"history"`
 		} `json:"replay"`
 	}
 	if err := json.Unmarshal(b, &f); err != nil {
 		fmt.Println("ENGINE-ERROR property=C33 cannot parse replay: " + err.Error())
 		return 2
+	}
+	if f.Replay.RealConfig != nil {
+		return replayReal(t, *f.Replay.RealConfig, f.Replay.History)
 	}
 	ch := make([]uint8, len(f.Replay.Choices))
 	for i, c := range f.Replay.Choices {
